@@ -34,7 +34,7 @@ def run(ctx):
         if agg["crash_in_log"] == 0:
             raise vlib.Undecided("vacuous: no crash inside a log append in the random runs")
         if not ctx.quick():
-            storelib.design_only(ctx, "big", dict(WalSteps="TRUE", CrashAt='{"wal", "idle"}', MaxStmts=5, MaxRows=3, MaxFlush=1, MaxCrash=2, Tables='{"t1"}', Vals="{1, 2}"), cov, timeout=600)
+            storelib.design_only(ctx, "big", dict(WalSteps="TRUE", CrashAt='{"wal", "idle"}', MaxStmts=5, MaxRows=3, MaxFlush=1, MaxCrash=2, Tables='{"t1"}', Vals="{1, 2}"), cov, timeout=300)
     finally:
         pool.close()
     for f in ("crash-wal-len", "crash-wal-body", "crash-wal-sync", "torn-tail", "recover"):
